@@ -29,6 +29,8 @@ EXPLANATION = (
     'class, bounds) normal form with exhaustive byte sets, equal the documented grammar (letter, then up to 254 of letters digits '
     '_ . - /; unit: up to 63 ASCII characters).')
 EXPLANATION += " The shared rule C07.R5 (the view's aggregation config reaches every CreateAggregation call of a storage) is evaluated."
+ROUND2_EXPLANATION = (" C19.R4 also: Builder::Build neither assigns, moves from nor mutates a member. C19.R6 also: PatternPredicate::Match decides by std::regex_match over begin..end. Shared C08.R6: the storage's attributes processor reaches every key built from caller attributes.")
+EXPLANATION += ROUND2_EXPLANATION
 NOT_DECIDED = 'that std::regex implements the parsed normal form; pattern predicates supplied by users; attribute equality of scopes.'
 
 CREATE_TABLE = {
